@@ -8,6 +8,11 @@ VERIF = os.path.dirname(os.path.dirname(os.path.abspath(__file__)))
 KNOWN = os.path.join(VERIF, "known_findings.txt")
 
 
+def thorough():
+    """True when the running check was started with --tier thorough (larger catalogues / deeper unrolling)"""
+    return os.environ.get("VERIF_TIER_EFFECTIVE") == "thorough"
+
+
 def load_known():
     """finding: property=<id> key=<rule:key> :: text   |   fixed: property=<id> <commit> key=<...> :: text"""
     findings = {}
